@@ -245,3 +245,51 @@ Proof.
   destruct (run_ops_spec ops _ _ HI Hok) as [E _].
   rewrite (observe_spec _ _ 0 HI), He, E. reflexivity.
 Qed.
+
+(* ---- appends from the builder's own text: resolved against the reported text, which is the abstract text ---- *)
+Lemma resolve_spec s a x : Inv true s a -> resolve s x = aresolve a x.
+Proof.
+  intros HI. destruct (view_spec s a HI) as (_ & E & _).
+  destruct x as [o|off n|off]; cbn [resolve aresolve]; rewrite ?E; reflexivity.
+Qed.
+
+Lemma resolve_ok s x : ok_xop x -> ok_op (resolve s x).
+Proof. destruct x; cbn; auto. Qed.
+
+Lemma run_xops_spec xs : forall s a, Inv true s a -> Forall ok_xop xs ->
+  fst (run_xops s xs) = fst (arun_xops a xs) /\ Inv true (snd (run_xops s xs)) (snd (arun_xops a xs)).
+Proof.
+  induction xs as [|x r IH]; intros s a HI Hok.
+  - split; [reflexivity | exact HI].
+  - inversion Hok as [|? ? Ho Hr]; subst.
+    cbn [run_xops arun_xops]. rewrite <- (resolve_spec s a x HI).
+    pose proof (step_spec s a (resolve s x) HI (resolve_ok s x Ho)) as Hs.
+    destruct (step s (resolve s x)) as [e s1]. destruct (astep a (resolve s x)) as [[e' a1] cut].
+    destruct Hs as (-> & HI1 & Hcut).
+    specialize (IH s1 a1 HI1 Hr).
+    destruct (run_xops s1 r) as [out s2]. destruct (arun_xops a1 r) as [out' a2]. cbn [fst snd] in *.
+    destruct IH as [-> HI2]. split; [|exact HI2].
+    rewrite (observe_spec s1 a1 e' HI1), Hcut. reflexivity.
+Qed.
+
+Theorem run_x_refines k cap ini xs : 0 <= k <= 3 -> 0 <= cap -> Forall ok_xop xs ->
+  run_x k cap ini xs = arun_x k cap ini xs.
+Proof.
+  intros Hk Hc Hok. unfold run_x, arun_x.
+  destruct (init_spec k cap ini Hk Hc) as [HI He].
+  destruct (run_xops_spec xs _ _ HI Hok) as [E _].
+  rewrite (observe_spec _ _ 0 HI), He, E. reflexivity.
+Qed.
+
+(* a history with self-appends IS a history of plain operations (the slices written out): every statement about the
+   states reachable through plain operation lists covers the states reachable with self-appends *)
+Lemma xops_flatten xs : forall s, Forall ok_xop xs ->
+  exists ops, Forall ok_op ops /\ run_ops s ops = run_xops s xs.
+Proof.
+  induction xs as [|x r IH]; intros s Hok.
+  - exists []. split; [constructor | reflexivity].
+  - inversion Hok as [|? ? Ho Hr]; subst.
+    destruct (IH (snd (step s (resolve s x))) Hr) as (ops & Hops & E).
+    exists (resolve s x :: ops). split; [constructor; [apply resolve_ok; exact Ho | exact Hops]|].
+    cbn [run_ops run_xops]. destruct (step s (resolve s x)) as [e s1]. cbn [snd] in E. rewrite E. reflexivity.
+Qed.
